@@ -486,4 +486,71 @@ __CPROVER_ensures((__CPROVER_return_value == HTP_DATA_BUFFER) ==> (g_txstate_n =
     connp->in_current_consume_offset == O(connp->in_current_consume_offset)))
 __CPROVER_ensures(RQ_COMMON_POST(connp))
 ;
+
+/* ==== response idle state: pairing of responses with requests (C04) =================================== */
+#include "c10_tx.h"
+#define TXS_RES_KEEP(c) (CUR_OUT_CURSOR(c) && \
+    (c)->out_current_read_offset == O((c)->out_current_read_offset) && (c)->out_current_consume_offset == O((c)->out_current_consume_offset) && \
+    (c)->out_current_len == O((c)->out_current_len) && (c)->out_current_data == O((c)->out_current_data) && (c)->out_stream_offset == O((c)->out_stream_offset) && \
+    (c)->conn == O((c)->conn) && (c)->cfg == O((c)->cfg) && (c)->out_next_tx_index == O((c)->out_next_tx_index) && (c)->out_status == O((c)->out_status) && \
+    (c)->in_status == O((c)->in_status) && (c)->in_state == O((c)->in_state) && (c)->in_tx == O((c)->in_tx) && \
+    (c)->out_content_length == O((c)->out_content_length) && (c)->out_buf == O((c)->out_buf) && (c)->out_buf_size == O((c)->out_buf_size) && \
+    IS_RES_STATE((c)->out_state))
+htp_status_t contract_stub_htp_tx_state_response_start(htp_tx_t *tx)
+__CPROVER_requires(tx != NULL && __CPROVER_rw_ok(tx, sizeof(*tx)) && __CPROVER_rw_ok(tx->connp, sizeof(htp_connp_t)) && CUR_OUT_CURSOR(tx->connp))
+__CPROVER_assigns(g_txstate_n, g_txstate_which, __CPROVER_object_whole(tx->connp), __CPROVER_object_whole(tx))
+__CPROVER_ensures(g_txstate_n == 1 && g_txstate_which == 11 && TXS_RES_KEEP(O(tx->connp)) && O(tx->connp)->out_tx == tx && tx->connp == O(tx->connp))
+__CPROVER_ensures(__CPROVER_return_value == HTP_OK || __CPROVER_return_value == HTP_STOP || __CPROVER_return_value == HTP_ERROR)
+__CPROVER_ensures(__CPROVER_return_value == HTP_OK ==> (O(tx->connp)->out_state == htp_connp_RES_LINE || O(tx->connp)->out_state == htp_connp_RES_BODY_IDENTITY_STREAM_CLOSE))
+__CPROVER_ensures(__CPROVER_return_value != HTP_OK ==> O(tx->connp)->out_state == O(tx->connp->out_state))
+;
+/* creation as seen from RES_IDLE (orphan response): NULL, or a fresh transaction appended last that also becomes in_tx */
+htp_tx_t *contract_site_htp_connp_tx_create(htp_connp_t *connp)
+__CPROVER_requires(__CPROVER_rw_ok(connp, sizeof(*connp)) && __CPROVER_rw_ok(TXL(connp), sizeof(htp_list_array_t)) && TXL(connp)->current_size < LCAP)
+__CPROVER_assigns(g_create_n, TXL(connp)->current_size, connp->conn->flags, connp->in_tx, connp->in_content_length, connp->in_body_data_left, connp->in_chunk_request_index)
+__CPROVER_ensures(g_create_n == 1)
+__CPROVER_ensures(__CPROVER_return_value == NULL ==> (TXL(connp)->current_size == O(TXL(connp)->current_size) && connp->in_tx == O(connp->in_tx)))
+__CPROVER_ensures(__CPROVER_return_value != NULL ==> (__CPROVER_is_fresh(__CPROVER_return_value, sizeof(htp_tx_t)) && connp->in_tx == __CPROVER_return_value &&
+    TXL(connp)->current_size == O(TXL(connp)->current_size) + 1 && __CPROVER_return_value->index == O(TXL(connp)->current_size) &&
+    __CPROVER_pointer_equals(__CPROVER_return_value->connp, connp) && __CPROVER_return_value->parsed_uri == NULL && __CPROVER_return_value->request_uri == NULL))
+;
+htp_uri_t *contract_htp_uri_alloc(void)
+__CPROVER_assigns()
+__CPROVER_ensures(__CPROVER_return_value == NULL || (__CPROVER_is_fresh(__CPROVER_return_value, sizeof(htp_uri_t)) && __CPROVER_return_value->path == NULL))
+;
+bstr *contract_bstr_dup_c(const char *cstr)
+__CPROVER_requires(cstr != NULL) __CPROVER_assigns()
+__CPROVER_ensures(__CPROVER_return_value == NULL || __CPROVER_is_fresh(__CPROVER_return_value, sizeof(bstr) + 32))
+;
+/* response start as seen from RES_IDLE: RES_IDLE has already attached the transaction; the call runs callbacks and moves out_state,
+ * neither of which RES_IDLE's pairing post-condition speaks about (the stub therefore leaves the parser untouched) */
+htp_status_t contract_site_htp_tx_state_response_start(htp_tx_t *tx)
+__CPROVER_requires(tx != NULL)
+__CPROVER_assigns(g_txstate_n, g_txstate_which)
+__CPROVER_ensures(g_txstate_n == 1 && (__CPROVER_return_value == HTP_OK || __CPROVER_return_value == HTP_STOP || __CPROVER_return_value == HTP_ERROR))
+;
+htp_status_t contract_site2_htp_tx_state_request_complete(htp_tx_t *tx)
+__CPROVER_requires(1)
+__CPROVER_assigns(g_txstate_n)
+__CPROVER_ensures(g_txstate_n == 1)
+;
+
+htp_status_t contract_htp_connp_RES_IDLE(htp_connp_t *connp)
+__CPROVER_requires(CUR_OUT(connp) && !g_in_gap && RS_SELF(connp, htp_connp_RES_IDLE) && __CPROVER_is_fresh(connp->conn, sizeof(htp_conn_t)) && WF_LIST_PRE(TXL(connp)))
+__CPROVER_requires(g_create_n == 0 && g_txstate_n == 0 && connp->out_next_tx_index < ((size_t) 1 << 62) && TXL(connp)->current_size < LCAP && gk < TXL(connp)->max_size)
+__CPROVER_assigns(g_create_n, g_txstate_n, g_txstate_which, __CPROVER_object_whole(connp), TXL(connp)->current_size, connp->conn->flags)
+/* no byte available: wait, nothing changes */
+__CPROVER_ensures(O(connp->out_current_read_offset) >= O(connp->out_current_len) ==> (__CPROVER_return_value == HTP_DATA && g_create_n == 0 && g_txstate_n == 0 &&
+    connp->out_next_tx_index == O(connp->out_next_tx_index) && connp->out_tx == O(connp->out_tx) && connp->out_state == O(connp->out_state)))
+/* a response begins: it is attached to the transaction at position out_next_tx_index (arrival order of requests), and the index advances by one.
+ * Stated for the witness slot gk: if gk is that position and the slot holds a live request, THAT transaction becomes out_tx and no transaction is created. */
+__CPROVER_ensures((O(connp->out_current_read_offset) < O(connp->out_current_len) && gk == O(connp->out_next_tx_index) && gk < O(TXL(connp)->current_size) && O(VIEW(TXL(connp), gk)) != NULL) ==>
+    (g_create_n == 0 && connp->out_tx == O(VIEW(TXL(connp), gk)) && connp->out_next_tx_index == O(connp->out_next_tx_index) + 1 &&
+     connp->in_tx == O(connp->in_tx) && connp->in_state == O(connp->in_state) && TXL(connp)->current_size == O(TXL(connp)->current_size)))
+/* no request is waiting at that position: the response gets a transaction of its own, appended last (never an existing, unrelated one) */
+__CPROVER_ensures((O(connp->out_current_read_offset) < O(connp->out_current_len) && (O(connp->out_next_tx_index) >= O(TXL(connp)->current_size))) ==>
+    (g_create_n == 1 && (__CPROVER_return_value == HTP_ERROR || (connp->out_tx != NULL && connp->out_tx == connp->in_tx && connp->out_tx->index == O(TXL(connp)->current_size) &&
+     connp->out_next_tx_index == O(connp->out_next_tx_index) + 1 && connp->in_state == htp_connp_REQ_FINALIZE))))
+__CPROVER_ensures(RS_COMMON_POST(connp))
+;
 #endif
